@@ -21,21 +21,36 @@ func splitState(withSide bool) (*Repository, *Branch, *Branch) {
 // splitStateBeyond optionally continues the best chain through the BSV split header and one more
 // header, so that forks are offered below an already verified split.
 func splitStateBeyond(withSide, beyond bool) (*Repository, *Branch, *Branch) {
+	return splitStateAt(withSide, beyond, false)
+}
+
+// splitStateAt: atBTC builds the same shape one below the BTC split height instead (fork point =
+// the BTC split's BeforeHash); there is no required header at that height, only a refused one.
+func splitStateAt(withSide, beyond, atBTC bool) (*Repository, *Branch, *Branch) {
 	cfg := &Config{Network: bitcoin.MainNet, MaxBranchDepth: 144}
 	repo := NewRepository(cfg, newVerifStore())
 	repo.DisableDifficulty() // proof of work is C02's subject; split protection stays on (production)
 	s := repo.requiredSplit.Height
+	forkPoint := repo.requiredSplit.BeforeHash
+	if atBTC {
+		for _, sp := range repo.splits {
+			if sp.Name == SplitNameBTC {
+				s = sp.Height
+				forkPoint = sp.BeforeHash
+			}
+		}
+	}
 	h0 := &wire.BlockHeader{Version: 1, Timestamp: 1542300000, Bits: 0x18021fdb, Nonce: 1}
 	main, _ := NewBranch(nil, s-3, h0) // height s-2
 	h1 := &wire.BlockHeader{Version: 1, Timestamp: 1542300600, Bits: 0x18021fdb, Nonce: 2, PrevBlock: main.headers[0].Hash}
 	main.Add(h1) // height s-1: force the fork point hash
 	delete(main.heightsMap, main.headers[1].Hash)
-	main.headers[1].Hash = repo.requiredSplit.BeforeHash
-	main.heightsMap[repo.requiredSplit.BeforeHash] = s - 1
+	main.headers[1].Hash = forkPoint
+	main.heightsMap[forkPoint] = s - 1
 	repo.branches = Branches{main}
 	repo.longest = main
 	repo.heights[main.headers[0].Hash] = s - 2
-	repo.heights[repo.requiredSplit.BeforeHash] = s - 1
+	repo.heights[forkPoint] = s - 1
 	var side *Branch
 	if withSide {
 		// a competing header at height s-1 on a fork created below the split
@@ -75,15 +90,26 @@ func symHeader(prefix string) *wire.BlockHeader {
 // a header hashing to the BTC or BCH split hash is refused as wrong chain wherever it attaches.
 func VerifC03SplitHeight() {
 	withSide := nondetBool("with-side-branch")
-	beyond := nondetBool("tip-beyond-split")
-	repo, main, side := splitStateBeyond(withSide, beyond)
+	atBTC := nondetBool("at-the-btc-split")
+	beyond := !atBTC && nondetBool("tip-beyond-split")
+	repo, main, side := splitStateAt(withSide, beyond, atBTC)
 	ctx := context_bg()
 	s := repo.requiredSplit.Height
+	forkPoint := repo.requiredSplit.BeforeHash
+	if atBTC {
+		for _, sp := range repo.splits {
+			if sp.Name == SplitNameBTC {
+				s = sp.Height
+				forkPoint = sp.BeforeHash
+			}
+		}
+		verifReach("at-btc-split")
+	}
 	x := symHeader("header")
 	// parent: the fork point, the side-branch tip (also at s-1), the header below, or anything else
 	switch pick("parent", 4) {
 	case 0:
-		x.PrevBlock = repo.requiredSplit.BeforeHash
+		x.PrevBlock = forkPoint
 	case 1:
 		if side == nil {
 			verifAssume(false)
@@ -105,8 +131,13 @@ func VerifC03SplitHeight() {
 		verifAssume(!hash.Equal(&sp.AfterHash) || x.PrevBlock.Equal(&sp.BeforeHash))
 	}
 	verifAssume(!hash.Equal(&repo.requiredSplit.AfterHash) || x.PrevBlock.Equal(&repo.requiredSplit.BeforeHash))
+	nBranches, nHeights, knownBefore := len(repo.branches), len(repo.heights), repo.HashHeight(hash)
 	err := repo.ProcessHeader(ctx, x)
 	known := repo.HashHeight(hash)
+	if err != nil {
+		// a refusal changes nothing
+		verifAssert(len(repo.branches) == nBranches && len(repo.heights) == nHeights && known == knownBefore, "refusal-changed-state")
+	}
 
 	var btc, bch bitcoin.Hash32
 	for _, sp := range repo.splits {
@@ -120,7 +151,7 @@ func VerifC03SplitHeight() {
 	bsv := repo.requiredSplit.AfterHash
 	if hash.Equal(&bsv) {
 		verifReach("bsv-hash")
-		if x.PrevBlock.Equal(&repo.requiredSplit.BeforeHash) {
+		if x.PrevBlock.Equal(&repo.requiredSplit.BeforeHash) && !atBTC {
 			verifAssert(err == nil, "bsv-split-header-refused")
 		}
 	} else if hash.Equal(&btc) || hash.Equal(&bch) {
@@ -129,11 +160,11 @@ func VerifC03SplitHeight() {
 		verifAssert(known == -1, "foreign-split-header-became-known")
 	} else {
 		verifReach("other-hash")
-		if err == nil {
+		if err == nil && !atBTC {
 			verifAssert(known != s, "non-bsv-header-accepted-at-split-height")
 		}
 	}
-	if err == nil && known == s {
+	if err == nil && known == s && !atBTC {
 		verifAssert(hash.Equal(&bsv), "header-at-split-height-is-not-the-bsv-split-header")
 	}
 	verifReach("done")
